@@ -27,6 +27,7 @@ func (s *Session) extraObligations(prop string) ([]*Obligation, error) {
 		}
 	}
 	if currentTier == "thorough" {
+		out = append(out, s.corpusObligation(prop))
 		switch prop {
 		case "C01", "C03", "C04", "C07", "C12":
 			out = append(out, s.omDiffObligation(prop))
@@ -153,6 +154,32 @@ func (s *Session) jsonDiffObligation(prop string) *Obligation {
 	if len(reply.Data.Failures) > 0 || reply.Data.Tried == 0 {
 		ob.Result = "fail"
 		ob.Raw = strings.Join(reply.Data.Failures, " | ")
+	}
+	return ob
+}
+
+// corpusObligation: thorough tier only, labelled BOUNDED: the property's witness corpus (the inputs the replay harness
+// would search when an obligation fails) is run on the real code of the current tree and judged by the property-level
+// oracle; no input may violate the property. Independent of the contracts: it can contradict a proof.
+func (s *Session) corpusObligation(prop string) *Obligation {
+	ob := &Obligation{Name: "bounded:corpus/" + prop, Fn: "replay-corpus", Kind: "bounded", Props: []string{prop}, Backend: "bounded-corpus",
+		Clause: "every input of the witness corpus of " + prop + " (/verif/replay) is run through the real code and judged by the property-level oracle"}
+	r, raw, err := runHarness(map[string]any{"mode": "search", "property": prop, "hint": ""})
+	if err != nil {
+		if strings.Contains(err.Error(), "no corpus for") {
+			ob.Result = "pass"
+			ob.Clause = "no witness corpus is defined for " + prop + " (nothing run)"
+			return ob
+		}
+		ob.Result, ob.Raw = "error", err.Error()+"\n"+raw
+		return ob
+	}
+	ob.Clause += fmt.Sprintf(" [%d inputs]", r.Tried)
+	ob.Result = "pass"
+	if r.Violated {
+		ob.Result = "fail"
+		b, _ := json.Marshal(r.Input)
+		ob.Raw = "input " + string(b) + " violates the property on the real code: " + r.Observed
 	}
 	return ob
 }
